@@ -757,6 +757,10 @@ tre_copy_ast(tre_mem_t mem, tre_stack_t *stack, tre_ast_node_t *ast,
 
 				/* HAWK */
 				((tre_literal_t*)(*result)->obj)->u.class = lit->u.class;
+				/* the negated classes of a bracket expression (`[^[:digit:]]')
+				 * belong to the literal as well. the array lives in the same
+				 * memory pool and is never modified, so it can be shared */
+				((tre_literal_t*)(*result)->obj)->neg_classes = lit->neg_classes;
 				/* END HAWK */
 				if (pos > *max_pos)
 					*max_pos = pos;
